@@ -16,7 +16,7 @@
 (*        physically happened to each packet), k packets went to direction *)
 (*        d, filling buffer "into" and possibly overflowing into "newb";   *)
 (*        "done" is what the code adds to its done counter                 *)
-(*   reemit b nin nout done | prem s d b n | term.set | it.end (census)    *)
+(*   reemit b nin nout done | prem d b n | term.set | it.end (census)      *)
 (* A violated requirement adds a tag to the variable bad; each tag is one  *)
 (* named invariant, so TLC reports which clause failed and where.          *)
 (***************************************************************************)
